@@ -14,14 +14,18 @@ CLAIMS = {
          "Lean 4 proof + model/implementation correspondence", "DESIGN §6 C20"),
  "C14": ("leak", "PARTIAL. Lean 4 theorems over a rendering semantics (values are arbitrarily nested texts built at extracted sites): a record whose argument classes are all clean contains no secret atom (render_clean, all tables/sites/values); every error-enum variant, every non-test construction of a free-text error payload, every manual Debug/Display impl and every tracing call site of the five crates - re-extracted from the current source on every run into GeneratedLeak.lean - has only clean argument classes (decide over the finite regenerated tables); hence no modelled execution emits a protected value. The tie to the code is the translator (classification rules trusted, conservative: no rule => unknown => sensitive) plus a run-time correspondence: every captured mdk_* record must come from an extracted site and a canary may occur only where the Lean table says sensitive; an independent canary oracle scans every captured record and every rendered Err/result value.",
          "Lean 4 proof over regenerated tables + run-time canary capture", "DESIGN §6 C14"),
+ "C13": ("atrest", "PARTIAL. Lean 4 theorems: the get_or_create_db_key protocol stores at most one key and every finished caller returns it, for every number of threads and every schedule (invariant by induction; mutual exclusion and a stores <= deletes+1 bound also with delete_db_key); the model's step list equals the call sequence extracted from keyring.rs on every run; the constructor x file-state x keyring-state decision logic: an encrypted file opens iff the presented key is its key, never via new_unencrypted, reopening returns the same data, `new` on an existing file never generates a key, at most one key is stored over every history of constructor calls, modes 0600/0700; concurrent `new` on one path is safe for every schedule (one key, openers agree, never WrongEncryptionKey) but callers can be refused (witness). Assumed, exercised by the harness only: SQLCipher page/journal/WAL encryption and the validation read, temp_store=MEMORY, O_EXCL/chmod, std Mutex, atomic keyring calls.",
+         "Lean 4 proof + model/implementation correspondence + canary scan", "DESIGN §6 C13"),
 }
-NOTES = {"C14": "partial: call sites that did not fire in a run are covered by the static theorem only; the classification of expressions and 'third-party Display/Debug is clean' are trusted and listed in evidence; panic messages are not captured"}
+NOTES = {"C13": "Lean kernel + propext/Quot.sound(/Classical.choice); tools/gen_model.py (keyringShape, guard lifetime, new()'s branches, PRAGMA order, mode constants); hand-written models validated by correspondence on this run's cells/histories/event traces only; confidentiality of file contents is an assumption on SQLCipher checked by a canary scan with a positive control",
+         "C14": "partial: call sites that did not fire in a run are covered by the static theorem only; the classification of expressions and 'third-party Display/Debug is clean' are trusted and listed in evidence; panic messages are not captured"}
 PENDING = "not yet claimed: machinery under construction in this session (planned per DESIGN §12)"
 def main():
     engines = [{"name": "lean-model", "path": "lean/", "serves_properties": sorted(CLAIMS), "kind_free_text": "Lean 4 executable model, helper lemmas, property theorems (MdkVerif.Props.*), compiled driver mdkdrv"},
                {"name": "store", "path": "harness/src/store.rs + vlib/storeeng.py", "serves_properties": [p for p, v in CLAIMS.items() if v[0] == "store"], "kind_free_text": "correspondence + oracle engine over the storage traits on both backends"},
                {"name": "mgr", "path": "harness/src/mgr.rs + vlib/mgreng.py", "serves_properties": [p for p, v in CLAIMS.items() if v[0] == "mgr"], "kind_free_text": "drives the real EpochSnapshotManager over both backends"},
                {"name": "leak", "path": "harness/src/leak.rs + vlib/leakeng.py + tools/gen_leak.py", "serves_properties": [p for p, v in CLAIMS.items() if v[0] == "leak"], "kind_free_text": "tracing capture + Display/Debug rendering of returned values under canary scenarios, mapped onto regenerated Lean tables"},
+               {"name": "atrest", "path": "harness/src/atrest.rs + vlib/atresteng.py + lean/Driver/AtrestDrv.lean", "serves_properties": [p for p, v in CLAIMS.items() if v[0] == "atrest"], "kind_free_text": "constructor x file-state x keyring-state matrix against a mock keyring-core store, concurrent first opens, canary byte scan, mode bits"},
                {"name": "translator", "path": "tools/gen_model.py", "serves_properties": sorted(CLAIMS), "kind_free_text": "regenerates lean/MdkVerif/Generated.lean from /repo on every run"}]
     m = {"version": 1, "setup_cmd": "./setup.sh",
          "hooks": {"guard": "cargo feature verif-hooks (mdk-core, mdk-memory-storage, mdk-sqlite-storage)",
